@@ -728,7 +728,18 @@ fn run_mismatch(cfg: &HsCfg, kind: usize, slot: Option<usize>, sc: &mut Sc, r: &
     // in a fifth the payloads are empty and read into an empty buffer (seed C08-J: no cipher call for an empty output)
     let with_retries = r.chance(1, 3);
     let empty = r.chance(1, 5);
+    // in a third: both parties look at the raw split before the first message and after every message (it must not
+    // un-bind anything: seed C08-K blanked the symmetric state in `dangerously_get_raw_split`)
+    let peek = r.chance(1, 3);
+    if peek {
+        let _ = sc.ex.raw_split(1);
+        let _ = sc.ex.raw_split(2);
+    }
     for k in 0..inst.msgs.len() {
+        if peek && k > 0 {
+            let _ = sc.ex.raw_split(1);
+            let _ = sc.ex.raw_split(2);
+        }
         let (w, rd) = if k % 2 == 0 { (1, 2) } else { (2, 1) };
         let p = if empty { vec![] } else { r.bytes(8) };
         if with_retries {
